@@ -223,7 +223,7 @@ def correspondence(ctx):
             if d['running_target_effects_applied'] or d['running_buff_effects']:
                 rep.dist['histories_ending_with_applied_projection_or_boost'] += 1
     k = ctx.n(1, 20)
-    n = {'projheavy': 90 * k, 'fleet': 50 * k, 'three-fits-decimal': 25 * k}
+    n = {'projheavy': 90 * k, 'fleet': 25 * k, 'fleetheavy': 30 * k, 'three-fits-decimal': 25 * k}
     F.histories(ctx, rep, list(n), n, 'corr', on_history=on_history, promote_l1=True)
 
 
